@@ -144,6 +144,9 @@ _n = Stream('notify', 'h_layers', gen=gen_notify, nontrivial=nontrivial_notify, 
 _n.spec_match = lambda spec, impl: spec == 'no-spec' or spec == impl
 _p = Stream('pair', 'h_layers', gen=gen_pair, nontrivial=lambda case, out: ':' in case.split(' ;; ')[1] and out.count(':event') + out.count(':new_span') >= 2)
 _p.py_judge = judge_pair
+# (the executors respect the max level the stack publishes, as the macros do: an absent layer that drags it down silences its neighbours)
+_p.env = {'TV_HINT_GATE': '1'}
+_n.env = {'TV_HINT_GATE': '1'}
 # the model speaks about notification kinds; the payloads (span ids, callsites) logged in pair mode are for the judge
 _p.canon = lambda s: re.sub(r'\[[^\]]*\]', '', s)
 _w = Stream('wrapped', 'h_layers', mode='modelfilt', gen=gen_wrapped, nontrivial=nontrivial_wrapped, spec_mode='specfilt')
